@@ -876,6 +876,13 @@ func (e *SpecEnv) callExpr(n *ast.CallExpr) SVal {
 				e.fail(n, "captured(\"name\")")
 			}
 			name, _ := strconv.Unquote(lit.Value)
+			if strings.HasPrefix(name, "#") {
+				// captured("#3"): by position, for the holders the compiler makes for a function's unnamed results
+				if k, err := strconv.Atoi(name[1:]); err == nil && k >= 0 && k < len(e.fr.fn.FreeVars) && k < len(e.fr.bindings) {
+					T := elemType(e.fr.fn.FreeVars[k].Type())
+					return SVal{e.st.load(e.fr.bindings[k], sortOf(T)), T}
+				}
+			}
 			for i, fv := range e.fr.fn.FreeVars {
 				if fv.Name() == name && i < len(e.fr.bindings) {
 					T := elemType(fv.Type())
